@@ -421,6 +421,19 @@ func RunC12On(h *MSHist, rep Reporter, disk bool) {
 		v := int64(ci + 1)
 		in.apply(ops, h)
 		in.applyModel(model, ops, h)
+		if ci == 0 && h.Ghost && !h.ViaCache {
+			// a historical read before anything is committed (a query right after InitChain): the copy is loaded at
+			// version 0; the live store keeps its pending writes
+			if p := safely(func() {
+				c := *in.rs.CopyStore()
+				_ = c.(*rootmulti.Store).LoadVersion(0)
+			}); p == nil {
+				rep.Count("c12.copy_loads_at_version_0", 1)
+				if d := diffContent(model, in.dump(h)); d != "" {
+					rep.Violate("C12", "copy-load-disturbs-live-store/version-0", fmt.Sprintf("loading version 0 on a CopyStore copy before the first Commit changed what the live store shows: %s", d))
+				}
+			}
+		}
 		var cid stypes.CommitID
 		if p := safely(func() { cid = in.rs.Commit() }); p != nil {
 			rep.Violate("C12", "commit-panic", fmt.Sprintf("Commit of version %d panicked: %v (pruning %s)", v, p, pstr))
@@ -460,6 +473,7 @@ func RunC12On(h *MSHist, rep Reporter, disk bool) {
 					}
 				}
 				rep.Count("c12.ghost_write_rounds", 1)
+				liveBefore := in.dump(h) // committed content plus the uncommitted writes
 				// (a) a copy of the store object loaded at a version (the route of historical contexts and custom queries)
 				for _, u := range []int64{v, v - 1} {
 					if u < 1 || !Retained(u, v, h.Pruning) || (h.LateFrom > 0 && u <= int64(h.LateFrom)) {
@@ -483,6 +497,28 @@ func RunC12On(h *MSHist, rep Reporter, disk bool) {
 						rep.Violate("C12", "copy-load-content", fmt.Sprintf("a CopyStore copy loaded at version %d (latest %d, uncommitted writes pending in the live store) does not show what was committed: %s", u, v, d))
 					}
 					rep.Count("c12.copy_loads", 1)
+				}
+				if d := diffContent(liveBefore, in.dump(h)); d != "" {
+					rep.Violate("C12", "copy-load-disturbs-live-store", fmt.Sprintf("loading versions on CopyStore copies changed what the live store (latest %d, with uncommitted writes) shows: %s", v, d))
+				}
+				// (a') the live object is asked for a version that is pruned (or does not exist yet): it refuses and
+				// stays where it is
+				for _, u := range []int64{v - 1, v - 2, 1, v + 3} {
+					if u < 1 || Retained(u, v, h.Pruning) {
+						continue
+					}
+					var ferr error
+					if p := safely(func() { ferr = in.rs.LoadVersion(u) }); p != nil {
+						ferr = fmt.Errorf("panic: %v", p)
+					}
+					if ferr == nil {
+						break // judged elsewhere (pruned-version-loads); the object has moved, stop probing
+					}
+					rep.Count("c12.refused_loads_on_live_store", 1)
+					if lc := in.rs.LastCommitID(); lc.Version != v || !bytes.Equal(lc.Hash, cid.Hash) {
+						rep.Violate("C12", "refused-load-moves-live-store", fmt.Sprintf("LoadVersion(%d) on the live store at version %d failed (%v) but LastCommitID now reports %v", u, v, ferr, lc))
+						break
+					}
 				}
 				// (b) the same object loads its latest version again: the uncommitted writes are gone
 				var lerr error
